@@ -21,6 +21,41 @@ _src_cache = {}
 _virtual = {}   # pseudo path -> SourceFile built from an item-level macro (T-MACRO-ITEM)
 
 
+_CONTRACT_KW = set("proof assert assume let ghost tracked forall exists implies by match if else is matches old final crate self true false "
+                   "int nat as requires ensures invariant decreases reveal choose broadcast use mut ref in return spec fn".split())
+
+
+def binder_counts(piece, fname, fs):
+    """{name: number of binder occurrences in the function's source} for every lower-case name the contract's texts use;
+    None when the function cannot be read"""
+    try:
+        from alpha import Resolver, expand_shorthand
+        fn = find_fns(piece.item).get(fname)
+        if fn is None:
+            return None
+        toks_ = piece.sf.toks
+        src = piece.sf.text[toks_[fn.k0].start:toks_[fn.k1].end]
+        texts = [fs.sig or "", fs.body_start or ""] + [str(v) for v in (fs.loops or {}).values()] \
+            + [str(a_[3]) for a_ in (fs.at or []) if len(a_) > 3]
+        used = set()
+        for t_ in texts:
+            t_ = re.sub(r"//[^\n]*", "", t_)
+            t_ = re.sub(r'"(?:[^"\\]|\\.)*"', '""', t_)
+            for w_ in re.findall(r"(?<![\w.:$])([a-z_]\w*)\b(?!\s*(?:::|!|\())", t_):
+                if w_ not in _CONTRACT_KW and not w_.endswith("__") and w_ != "_":
+                    used.add(w_)
+        ts = expand_shorthand(lex(src))
+        r_ = Resolver(ts)
+        r_.run()
+        out = {}
+        for i_, tk_ in enumerate(ts):
+            if tk_.kind == "ident" and tk_.text in used and r_.res[i_] == i_ and r_.zone[i_] == "pat":
+                out[tk_.text] = out.get(tk_.text, 0) + 1
+        return out
+    except Exception:
+        return None
+
+
 ALPHA_LOG = []     # rule T-ALPHA: functions whose text has been replaced by the recorded, alpha-equivalent one
 _baseline_src = None
 
@@ -2095,6 +2130,13 @@ class Unit:
             self.baseline_opaque = _json2.load(open(os.path.join(VERIF, "baseline_shapes.json"))).get("__opaque__", {}).get(name)
         except Exception:
             self.baseline_opaque = None
+        self.bindsigs = {}      # verified function -> {name used by its contract: number of bindings of that name in the function}
+        self.rebound = set()    # functions in which such a name is bound another number of times than when the contract was written
+        try:
+            import json as _json3
+            self.baseline_binders = _json3.load(open(os.path.join(VERIF, "baseline_shapes.json"))).get("__binders__", {}).get(name)
+        except Exception:
+            self.baseline_binders = None
         self.loopless = set()   # functions that had loops when their contracts were written and have none now
         self.reshaped = set()   # functions whose loops have another control skeleton than the one their contracts were written for
         self.macro_fns = {}  # name -> call template (T-MACRO-FN: the macro body lives in a verified helper fn)
@@ -2443,6 +2485,15 @@ class Unit:
                                 self.opaque[okey_] = opaque_closures("".join(x[1] for x in segs))
                             except Exception:
                                 self.opaque[okey_] = -1
+                            # the names a contract uses, and how many times each is bound in the function (parameter, `let`, pattern):
+                            # when that differs from what was recorded, a name in the contract may denote another variable than the
+                            # one it was written for (a shadowing removed or introduced) - a failure is then not a verdict
+                            for nm_, fs_ in (p.fnspecs or {}).items():
+                                bkey_ = f"{okey_}::{nm_}"
+                                self.bindsigs[bkey_] = binder_counts(p, nm_, fs_)
+                                wantb_ = (self.baseline_binders or {}).get(bkey_)
+                                if wantb_ is not None and self.bindsigs[bkey_] != wantb_:
+                                    self.rebound.add(nm_)
                             want_ = (self.baseline_opaque or {}).get(okey_)
                             if want_ is not None and (self.opaque[okey_] < 0 or self.opaque[okey_] > want_):
                                 # a closure whose result the verifier knows nothing about has been added: a failed obligation of this
